@@ -327,10 +327,13 @@ def standin_ionq_jobs(tier, seed):
                 if not ops:
                     ops = [cirq.X(qs[0])]
                 kq = rng.sample(qs, rng.randrange(1, n + 1))
-                meas = [cirq.measure(*kq, key="k")]
+                # key texts of every length around the 40-character chunks the measurement table travels in, with blanks anywhere
+                key_pool = ["k", "other", "data register", "a" * 37 + " b", " lead", "trail ", "x" * 36, "y" * 37, "z" * 38, "w" * 39, "m " * 19 + "m", "q" * 35 + "  r", "p" * 33 + " s t"]
+                k1, k2 = rng.sample(key_pool, 2)
+                meas = [cirq.measure(*kq, key=k1)]
                 rest = [q for q in qs if q not in kq]
                 if rest and rng.random() < 0.5:
-                    meas.append(cirq.measure(*rng.sample(rest, len(rest)), key="other"))
+                    meas.append(cirq.measure(*rng.sample(rest, len(rest)), key=k2))
                 c = cirq.Circuit(ops, meas)
                 all_q = cirq.LineQubit.range(max(q.x for q in c.all_qubits()) + 1)
                 psi = refsim.ref_unitary(cirq.Circuit(ops), list(all_q))[:, 0]
@@ -415,8 +418,13 @@ def standin_ionq_measurement_table(tier, seed):
         seen = set()
         meas = [m for m in meas if not (set(m.qubits) & seen) and not seen.update(m.qubits)]
         c = cirq.Circuit(cirq.X(qs[0]), meas)
+        # the caller's own metadata dictionary is reused from circuit to circuit (as a job loop would): what one circuit wrote must not
+        # reach the next circuit's table, and the caller's entries travel along
+        if not hasattr(standin_ionq_measurement_table, "_user_md") or rng.random() < 0.1:
+            standin_ionq_measurement_table._user_md = {"experiment": "e1"}
+        user_md = standin_ionq_measurement_table._user_md
         try:
-            sp = ser.serialize_single_circuit(c)
+            sp = ser.serialize_single_circuit(c, metadata=user_md) if rng.random() < 0.6 else ser.serialize_single_circuit(c)
         except ValueError:
             continue  # documented refusal (table too long / invalid key)
         cases += 1
@@ -427,10 +435,14 @@ def standin_ionq_measurement_table(tier, seed):
             continue
         table = "".join(md[k] for k in parts)
         got = {}
-        for chunk in table.split(chr(30)):
-            if chunk:
-                k, t = chunk.split(chr(31))
-                got[k] = [int(x) for x in t.split(",")]
+        try:
+            for chunk in table.split(chr(30)):
+                if chunk:
+                    k, t = chunk.split(chr(31))
+                    got[k] = [int(x) for x in t.split(",")]
+        except ValueError:
+            fails.append(dict(args=dict(circuit=repr(c), metadata=repr(md)), failed="measurement-metadata", clause="the packed table cannot be decoded (key / targets entries are malformed)"))
+            continue
         want = {cirq.measurement_key_name(m): [q.x for q in m.qubits] for m in meas}
         if got != want:
             fails.append(dict(args=dict(circuit=repr(c), metadata=repr(md)), failed="measurement-metadata", clause=f"the packed table decodes to {got}, the circuit measures {want}"))
